@@ -86,41 +86,63 @@ ImgClass(d, s) == LET F == MMul(DrawM(d), MSc(ImgW, ImgH))
                       ey == 3 * ((Abs(F[4]) * U) \div ImgW + (Abs(F[5]) * U) \div ImgH + 1) + Marg
                   IN IF s[1] < SetMin(xs) - ex \/ s[1] > SetMax(xs) + ex \/ s[2] < SetMin(ys) - ey \/ s[2] > SetMax(ys) + ey THEN OUT_ ELSE FREE_
 
+\* ---- rotated ellipse: membership by the implicit equation in exact integers -----------------------------------------------
+\* The pixel centre s is pulled back through the draw matrix (adjugate: local coordinates times K = U * det), rotated by the
+\* integer matrix (cr, sr; -sr, cr) and tested against  b^2 x^2 + a^2 y^2  vs  (a b K den)^2.  Tolerance: a device disk of radius
+\* Marg lies in a local disk of radius mloc = Marg * LinNorm / (U |det|); (1 - mloc/b) E  is inside E by more than that, and
+\* (1 + mloc/b) E contains everything within that distance of E (scaling argument, b = smaller radius).  Square roots are one-sided.
+EllClass(d, rule, s) ==
+    LET e == Ells[d.shape - 20] m == DrawM(d) q == Lin(m) det == DetL(q) kk == U * det
+        vx == s[1] - U * m[3] vy == s[2] - U * m[6]
+        px == q[4] * vx - q[2] * vy  py == q[1] * vy - q[3] * vx             \* local point times kk
+        dx == px - kk * e.c[1] dy == py - kk * e.c[2]
+        ux == e.cr * dx + e.sr * dy uy == e.cr * dy - e.sr * dx              \* times kk * den
+        q2 == e.b * e.b * ux * ux + e.a * e.a * uy * uy
+        rr == e.a * e.b * Abs(kk) * e.den
+        md == e.b * U * Abs(det) ml == Marg * LinNorm(q)
+    IN IF md > ml /\ ISqrtHi(q2) * md < (md - ml) * rr THEN (IF Fills(rule, Sgn(det)) THEN IN_ ELSE OUT_)
+       ELSE IF ISqrtLo(q2) * md > (md + ml) * rr THEN OUT_ ELSE FREE_
+
 \* ---- paints of a program with everything that does not depend on the pixel precomputed -----------------------
 ColIdx(n) == CHOOSE i \in 1..Len(PaintNames) : PaintNames[i] = n
 FREECODE == 99
 RPaints(d, nz) ==
     (IF d.img = 1 THEN <<[k |-> "img", d |-> d]>> ELSE <<>>)
-    \o (IF HasFill(d) THEN <<[k |-> "fill", d |-> d, cs |-> FillContours(d), es |-> FillEdges(d), rule |-> IF nz THEN 0 ELSE d.rule,
-                             code |-> IF PaintTab[d.fill].a = 255 THEN ColIdx(d.fill) ELSE FREECODE]>> ELSE <<>>)
+    \o (IF HasFill(d) /\ IsEll(d) THEN <<[k |-> "ell", d |-> d, rule |-> IF nz THEN 0 ELSE d.rule, code |-> ColIdx(d.fill), tl |-> PaintTab[d.fill].a # 255]>>
+        ELSE IF HasFill(d) THEN <<[k |-> "fill", d |-> d, cs |-> FillContours(d), es |-> FillEdges(d), rule |-> IF nz THEN 0 ELSE d.rule,
+                             code |-> ColIdx(d.fill), tl |-> PaintTab[d.fill].a # 255]>> ELSE <<>>)
     \o (IF HasStroke(d) THEN <<[k |-> "stroke", d |-> d, es |-> StrokeEdges(d), reach |-> StrokeReach(d), hw |-> HalfW(d),
-                               code |-> IF PaintTab[d.stroke].a = 255 THEN ColIdx(d.stroke) ELSE FREECODE]>> ELSE <<>>)
+                               code |-> ColIdx(d.stroke), tl |-> PaintTab[d.stroke].a # 255]>> ELSE <<>>)
 RECURSIVE AllPaints(_, _, _)
 AllPaints(pr, j, nz) == IF j > Len(pr) THEN <<>> ELSE RPaints(pr[j], nz) \o AllPaints(pr, j + 1, nz)
 ClassOf(p, s) == CASE p.k = "img" -> ImgClass(p.d, s)
                    [] p.k = "fill" -> FillClass(p.cs, p.es, p.rule, s)
+                   [] p.k = "ell" -> EllClass(p.d, p.rule, s)
                    [] p.k = "stroke" -> StrokeClass(p.d, p.es, p.reach, p.hw, s)
 RECURSIVE Fold(_, _, _, _)
 Fold(ps, n, s, acc) == IF n > Len(ps) THEN acc
                        ELSE LET c == ClassOf(ps[n], s) IN
-                            Fold(ps, n + 1, s, IF c = OUT_ THEN acc ELSE IF c = FREE_ \/ ps[n].k = "img" THEN FREECODE ELSE ps[n].code)
+                            \* a translucent paint over a certainly untouched pixel is that paint alone (its premultiplied colour);
+                            \* over anything else the blend is not modelled
+                            Fold(ps, n + 1, s, IF c = OUT_ THEN acc ELSE IF c = FREE_ \/ ps[n].k = "img" THEN FREECODE
+                                               ELSE IF ps[n].tl /\ acc # 0 THEN FREECODE ELSE ps[n].code)
 FrameOf(ps) == [j \in 0..(Hpx - 1) |-> [i \in 0..(Wpx - 1) |-> Fold(ps, 1, Centre(i, j), 0)]]
 Rows(f) == [j \in 1..Hpx |-> [i \in 1..Wpx |-> f[j - 1][i - 1]]]
 
 \* does some draw use a rule on which its shape's fill differs from non-zero?
 \* (Positive / Negative depend on the orientation, which the draw matrix may flip: always sensitive)
-RuleSensitive(pr) == \E j \in 1..Len(pr) : HasFill(pr[j]) /\ (pr[j].rule \in {2, 3} \/ (pr[j].rule = 1 /\ ~RuleSame(pr[j].shape, 1, 0)))
+RuleSensitive(pr) == \E j \in 1..Len(pr) : HasFill(pr[j]) /\ (pr[j].rule \in {2, 3} \/ (pr[j].rule = 1 /\ ~IsEll(pr[j]) /\ ~RuleSame(pr[j].shape, 1, 0)))
 \* scenario features (exact): a filled shape with an open sub-path; a painted region that reaches beyond the left / top image border
-OpenFill(pr) == \E j \in 1..Len(pr) : HasFill(pr[j]) /\ \E n \in 1..Len(Shapes[pr[j].shape]) : ~Shapes[pr[j].shape][n].c
+OpenFill(pr) == \E j \in 1..Len(pr) : HasFill(pr[j]) /\ ~IsEll(pr[j]) /\ \E n \in 1..Len(Shapes[pr[j].shape]) : ~Shapes[pr[j].shape][n].c
 \* a Positive / Negative fill of a shape with an open sub-path (the rasterizer settles the path with Path.Settle, which does not close it)
-PosNegOpen(pr) == \E j \in 1..Len(pr) : HasFill(pr[j]) /\ pr[j].rule \in {2, 3} /\ \E n \in 1..Len(Shapes[pr[j].shape]) : ~Shapes[pr[j].shape][n].c
+PosNegOpen(pr) == \E j \in 1..Len(pr) : HasFill(pr[j]) /\ ~IsEll(pr[j]) /\ pr[j].rule \in {2, 3} /\ \E n \in 1..Len(Shapes[pr[j].shape]) : ~Shapes[pr[j].shape][n].c
 Reach(d) == IF HasStroke(d) THEN StrokeReach(d) ELSE 0
 \* a stroked closed sub-path that crosses itself (DESIGN 8 #23: Path.Stroke drops part of the outline; C04's finding)
 SelfX(sh) == \E n \in 1..Len(sh) : sh[n].c /\ LET q == sh[n].p m == Len(q) IN
                 \E a \in 1..m, b \in 1..m : a < b /\ SegsCrossProperly(q[a], q[(a % m) + 1], q[b], q[(b % m) + 1])
-StrokeSelfX(pr) == \E j \in 1..Len(pr) : HasStroke(pr[j]) /\ SelfX(Shapes[pr[j].shape])
-CrossLeft(pr) == \E j \in 1..Len(pr) : LET es == FillEdges(pr[j]) IN \E i \in 1..Len(es) : es[i].x0 - Reach(pr[j]) < 0
-CrossTop(pr) == \E j \in 1..Len(pr) : LET es == FillEdges(pr[j]) IN \E i \in 1..Len(es) : es[i].y1 + Reach(pr[j]) > Hpx * PX
+StrokeSelfX(pr) == \E j \in 1..Len(pr) : HasStroke(pr[j]) /\ ~IsEll(pr[j]) /\ SelfX(Shapes[pr[j].shape])
+CrossLeft(pr) == \E j \in 1..Len(pr) : ~IsEll(pr[j]) /\ LET es == FillEdges(pr[j]) IN \E i \in 1..Len(es) : es[i].x0 - Reach(pr[j]) < 0
+CrossTop(pr) == \E j \in 1..Len(pr) : ~IsEll(pr[j]) /\ LET es == FillEdges(pr[j]) IN \E i \in 1..Len(es) : es[i].y1 + Reach(pr[j]) > Hpx * PX
 
 \* ---- generator ---------------------------------------------------------------------------------------------
 FScenario == LET ps == AllPaints(gprog, 1, FALSE) \o <<>> IN
@@ -137,7 +159,7 @@ FSpec == GInit /\ [][FEmit]_mvars
 \* (2) NonZero = Positive or Negative, EvenOdd within NonZero, cell-wise on the certain pixels of single fills;
 \* (3) with an opaque fill nothing outside the bounding box of the path (+ Marg) is painted.
 SingleFill(d, rule, s) == FillClass(FillContours(d), FillEdges(d), rule, s)
-FrameLaws == gdone => \A j \in 1..Len(gprog) : LET d == gprog[j] IN HasFill(d) =>
+FrameLaws == gdone => \A j \in 1..Len(gprog) : LET d == gprog[j] IN (HasFill(d) /\ ~IsEll(d)) =>
     \A i \in 0..(Wpx - 1), r \in 0..(Hpx - 1) : LET s == Centre(i, r) c0 == SingleFill(d, 0, s) IN
         /\ (c0 = FREE_) = (SingleFill(d, 1, s) = FREE_)
         /\ (c0 # FREE_ => /\ (c0 = IN_) = (SingleFill(d, 2, s) = IN_ \/ SingleFill(d, 3, s) = IN_)
